@@ -9,8 +9,9 @@ Streams
              flag combinations and the Project attributes  vs  the Gallina model; the
              property's clauses are checked directly on the real list by an independent oracle.
   roundtrip  Project(...).save() ; Project.load(...) : attributes before/after vs the model
-             (mk_project / save / load) and directly against each other (the property);
-             the JSON file is inspected.
+             (mk_project / save / load) and directly against each other (the property;
+             environment_path is compared by its str and must load back as a str);
+             the JSON file is inspected.  save() raising is always a deviation.
   import     public API only: which of several same-named modules `import zqmod` resolves to
              (goto/infer module_path), which uniquely named modules are importable (goto) and
              offered by import completion (complete)  vs  first-match over the model's composed
